@@ -23,21 +23,23 @@ structure Sim (s s' : State) : Prop where
   next : s.next = s'.next
   nseq : s.nseq = s'.nseq
   dstor : s.dstor = s'.dstor
+  dlogger : s.dlogger = s'.dlogger
 
-theorem Sim.rfl' (s : State) : Sim s s := ⟨rfl, rfl, rfl, rfl, rfl, rfl, List.Perm.refl _, rfl, rfl, rfl, rfl⟩
+theorem Sim.rfl' (s : State) : Sim s s := ⟨rfl, rfl, rfl, rfl, rfl, rfl, List.Perm.refl _, rfl, rfl, rfl, rfl, rfl⟩
 
 theorem Sim.trans {a b c : State} (h1 : Sim a b) (h2 : Sim b c) : Sim a c :=
   ⟨h1.raw.trans h2.raw, h1.rawJSON.trans h2.rawJSON, h1.cur.trans h2.cur, h1.socks.trans h2.socks,
    h1.mpool.trans h2.mpool, h1.writers.trans h2.writers, h1.events.trans h2.events,
-   h1.aevents.trans h2.aevents, h1.next.trans h2.next, h1.nseq.trans h2.nseq, h1.dstor.trans h2.dstor⟩
+   h1.aevents.trans h2.aevents, h1.next.trans h2.next, h1.nseq.trans h2.nseq, h1.dstor.trans h2.dstor,
+   h1.dlogger.trans h2.dlogger⟩
 
 theorem cleanupOne_sim (l : Live) {s s' : State} (h : Sim s s') : Sim (cleanupOne l s) (cleanupOne l s') := by
   unfold cleanupOne
   cases l.key with
   | none => exact ⟨h.raw, h.rawJSON, h.cur, h.socks, h.mpool, h.writers, h.events.append_right _,
-      h.aevents, h.next, h.nseq, h.dstor⟩
+      h.aevents, h.next, h.nseq, h.dstor, h.dlogger⟩
   | some k => exact ⟨h.raw, h.rawJSON, h.cur, h.socks, by show decr s.mpool k = decr s'.mpool k; rw [h.mpool],
-      h.writers, h.events.append_right _, h.aevents, h.next, h.nseq, h.dstor⟩
+      h.writers, h.events.append_right _, h.aevents, h.next, h.nseq, h.dstor, h.dlogger⟩
 
 theorem cleanupAll_sim : ∀ (ls : List Live) {s s' : State}, Sim s s' → Sim (cleanupAll ls s) (cleanupAll ls s')
   | [], _, _, h => h
@@ -61,8 +63,8 @@ theorem cleanupOne_comm (a b : Live) (s : State) :
   unfold cleanupOne
   cases a.key <;> cases b.key <;>
     first
-    | exact ⟨rfl, rfl, rfl, rfl, rfl, rfl, hp _ _, rfl, rfl, rfl, rfl⟩
-    | exact ⟨rfl, rfl, rfl, rfl, decr_comm _ _ _, rfl, hp _ _, rfl, rfl, rfl, rfl⟩
+    | exact ⟨rfl, rfl, rfl, rfl, rfl, rfl, hp _ _, rfl, rfl, rfl, rfl, rfl⟩
+    | exact ⟨rfl, rfl, rfl, rfl, decr_comm _ _ _, rfl, hp _ _, rfl, rfl, rfl, rfl, rfl⟩
 
 theorem cleanupAll_perm {l1 l2 : List Live} (p : l1.Perm l2) :
     ∀ {s s' : State}, Sim s s' → Sim (cleanupAll l1 s) (cleanupAll l2 s') := by
